@@ -39,6 +39,8 @@ LAYOUTS = {
     "ymd-dirs": ("/data/{year}/{month}/{day}/{hour}{minute}{second}-{end_hour}{end_minute}{end_second}.nc", timedelta(days=1)),
     "flat": ("/data/{year}{month}{day}T{hour}{minute}-{end_year}{end_month}{end_day}T{end_hour}{end_minute}.nc", None),
     "doy-dirs": ("/data/{year}/{doy}/{hour}{minute}-{end_hour}{end_minute}.nc", timedelta(days=1)),
+    # a non-temporal directory level below the temporal ones
+    "ymd-sat-dirs": ("/data/{year}/{month}/{day}/{satname}/{hour}{minute}{second}-{end_hour}{end_minute}{end_second}.nc", timedelta(days=1)),
 }
 
 
@@ -52,7 +54,7 @@ def find_one(t0, t1, s, e, cfg):
     requires(t0 <= t1, s < e, t0.year >= 1000, t1.year >= 1000, s.year >= 1000, e.year >= 1000)
     if R is not None:
         requires(t1 - t0 < R)          # a file lasts no longer than one period of the finest directory level
-    name = fs.get_filename((t0, t1))
+    name = fs.get_filename((t0, t1), fill={"satname": "NOAA18"} if "{satname}" in path else None)
     if "doy" in path:
         # step: the day-of-year written into the directory name leads back to t0's own date
         d0 = datetime(t0.year, 1, 1) + timedelta(days=(t0 - datetime(t0.year, 1, 1)).days + 1 - 1)
@@ -67,7 +69,7 @@ def find_one(t0, t1, s, e, cfg):
 
 find_one.__pyvc_thm__ = True
 for _lay in LAYOUTS:
-    _depth = 3 if _lay == "ymd-dirs" else 2
+    _depth = 3 if _lay in ("ymd-dirs", "ymd-sat-dirs") else 2
     theorem(P, "find-one-file[%s]" % _lay, t0=_dt("t0", _depth), t1=_dt("t1", _depth), s=_dt("s", 6), e=_dt("e", 6),
             cfg=Kind("const", value={"layout": _lay}))(find_one)
 
@@ -188,7 +190,7 @@ def thm_canary_c01(t0, t1, s, e):
     ensures(len(found) == (1 if (t0 <= e and t1 >= s) else 0), id="closed end (false)")
 
 
-@bounded(P, "real-directory-trees", "real files on the local file system: 4 templates (depth 0..3, doy, user placeholder), populations of "
+@bounded(P, "real-directory-trees", "real files on the local file system: 6 templates (depth 0..4, doy, user placeholder levels above / between / below the temporal ones), populations of "
          "1..6 files on a 6-hour lattice incl. files crossing midnight / month / year ends and zero-length coverages, all query "
          "periods on the same lattice (+- 1 microsecond), sort, bundle by count, exclusion, white/black lists")
 def bounded_real_find(rng, tier):
@@ -198,6 +200,9 @@ def bounded_real_find(rng, tier):
         ("{year}/{month}/{day}/{hour}{minute}-{end_hour}{end_minute}.nc", timedelta(days=1)),
         ("{year}/{doy}/{sat}_{hour}{minute}-{end_hour}{end_minute}.nc", timedelta(days=1)),
         ("{sat}/{year}/{month}/{day}{hour}-{end_day}{end_hour}.nc", timedelta(days=28)),
+        # non-temporal levels below / between the temporal ones, a wildcard level
+        ("{year}/{month}/{day}/{sat}/{hour}{minute}-{end_hour}{end_minute}.nc", timedelta(days=1)),
+        ("{year}/{sat}/{month}/{day}{hour}-{end_day}{end_hour}.nc", timedelta(days=28)),
     ]
     base_times = [datetime(2017, 12, 30) + timedelta(hours=6 * i) for i in range(0, 20)] + [datetime(2016, 2, 28, 18), datetime(2016, 2, 29, 6)]
     evals, failures, samples, distinct = 0, [], [], set()
